@@ -18,8 +18,8 @@ pub open spec fn push_payload(b: ScriptBit) -> Option<Seq<u8>> {
 pub open spec fn tok_matches(t: MatchToken, b: ScriptBit) -> bool {
     match t {
         MatchToken::OpCode(c) => b matches ScriptBit::OpCode(o) && c == o,
-        MatchToken::Push(d) => b matches ScriptBit::Push(e) && d@ == e@,
-        MatchToken::PushData(op, d) => b matches ScriptBit::PushData(op2, e) && op == op2 && d@ == e@,
+        MatchToken::Push(d) => b matches ScriptBit::Push(e) && d@ =~= e@,
+        MatchToken::PushData(op, d) => b matches ScriptBit::PushData(op2, e) && op == op2 && d@ =~= e@,
         MatchToken::AnyData => push_payload(b) is Some,
         MatchToken::Data(n, c) => push_payload(b) is Some && len_cmp(c, push_payload(b)->Some_0.len() as int, n as int),
         MatchToken::Signature => b matches ScriptBit::Push(e) && decodes_as_signature(e@),
@@ -49,3 +49,26 @@ pub open spec fn tmpl_extract(t: Seq<MatchToken>, s: Seq<ScriptBit>, n: int) -> 
     }
 }
 pub open spec fn extracted_view(v: Seq<(MatchDataTypes, Vec<u8>)>) -> Seq<(int, Seq<u8>)> { Seq::new(v.len(), |i: int| (kind_tag(v[i].0), v[i].1@)) }
+
+// ---- match criteria ----
+pub open spec fn value_ok(v: u64, c: MatchCriteria) -> bool {
+    (c.exact_value is Some ==> v == c.exact_value->Some_0) && (c.min_value is Some ==> v >= c.min_value->Some_0) && (c.max_value is Some ==> v <= c.max_value->Some_0)
+}
+pub open spec fn out_satisfies(o: TxOut, c: MatchCriteria) -> bool {
+    (c.script_template is Some ==> tmpl_matches(c.script_template->Some_0.0@, o.script_pub_key.0@)) && value_ok(o.value, c)
+}
+// the script an input is matched on: unlocking ++ locking, re-parsed (C15 contract of get_finalised_script_impl)
+pub uninterp spec fn finalised_bits(t: TxIn) -> Option<Seq<ScriptBit>>;
+pub open spec fn in_satisfies(t: TxIn, c: MatchCriteria) -> bool {
+    (c.script_template is Some ==> finalised_bits(t) is Some && tmpl_matches(c.script_template->Some_0.0@, finalised_bits(t)->Some_0))
+    && (t.satoshis is Some ==> value_ok(t.satoshis->Some_0, c))
+}
+// the selection predicate of match_input(s): in_satisfies, with the value of an input that records none treated as
+// unknown - it satisfies no exact / minimum bound (the property is silent about such inputs; a maximum bound is not applied to them)
+pub open spec fn in_sel(t: TxIn, c: MatchCriteria) -> bool {
+    (c.script_template is Some ==> finalised_bits(t) is Some && tmpl_matches(c.script_template->Some_0.0@, finalised_bits(t)->Some_0))
+    && match t.satoshis { Some(v) => value_ok(v, c), None => c.exact_value is None && c.min_value is None }
+}
+pub open spec fn matching_indices(n: int, p: spec_fn(int) -> bool) -> Seq<usize> decreases n {
+    if n <= 0 { Seq::empty() } else if p(n - 1) { matching_indices(n - 1, p).push((n - 1) as usize) } else { matching_indices(n - 1, p) }
+}
